@@ -480,3 +480,10 @@ def run(ctx: Context) -> None:
     from sa.rules import c11
 
     c11.r11_table_writers(ctx, "R12g")
+    from sa.rules import c17
+
+    # a rule is enabled and configured from its own sections only (id and names): one rule's section never decides another's
+    c17.r17b(ctx)
+    ctx.rules[-1].rule_id = "R12h"
+    for finding in ctx.rules[-1].findings:
+        finding.rule = "R12h"
